@@ -622,4 +622,73 @@ theorem fromFloatSpec_mono (t : FxTy) (hlh : t.lo ≤ t.hi) (s : Bool) (m : Nat)
   cases s' <;> simp at h ⊢ <;> omega
 
 
+theorem mul_pos_le_zero_iff (A P : Int) (hP : 0 < P) : A * P ≤ 0 ↔ A ≤ 0 := by
+  constructor
+  · intro h
+    apply Classical.byContradiction; intro hc
+    have : 1 * P ≤ A * P := Int.mul_le_mul_of_nonneg_right (by omega) (by omega)
+    omega
+  · intro h
+    exact Int.mul_nonpos_of_nonpos_of_nonneg h (by omega)
+
+/-- comparison of two finite floats whose exponents are at least `-k`, on the integers
+`value · 2^k`. -/
+theorem le_fin_scaled (k : Nat) (s : Bool) (m : Nat) (e : Int) (t : Bool) (n : Nat) (g : Int)
+    (he : -(k : Int) ≤ e) (hg : -(k : Int) ≤ g) :
+    le (.fin s m e) (.fin t n g) = true ↔
+      ((if s then -1 else 1) * ((m : Int) * 2 ^ (e + k).toNat)
+        ≤ (if t then -1 else 1) * ((n : Int) * 2 ^ (g + k).toNat)) := by
+  unfold le
+  rw [decide_eq_true_iff]
+  unfold exactSum
+  simp only []
+  generalize he0 : (if e ≤ g then e else g) = e0
+  have h1 : e0 ≤ e ∧ e0 ≤ g ∧ -(k : Int) ≤ e0 := by rw [← he0]; split <;> omega
+  have x1 : (e + (k : Int)).toNat = (e - e0).toNat + (e0 + k).toNat := by omega
+  have x2 : (g + (k : Int)).toNat = (g - e0).toNat + (e0 + k).toNat := by omega
+  rw [x1, x2, Int.pow_add, Int.pow_add]
+  have hP := int_pow_pos (e0 + (k : Int)).toNat
+  generalize (2 : Int) ^ (e0 + (k : Int)).toNat = P at *
+  rw [← Int.mul_assoc (m : Int), ← Int.mul_assoc (n : Int)]
+  generalize (m : Int) * 2 ^ (e - e0).toNat = X
+  generalize (n : Int) * 2 ^ (g - e0).toNat = Y
+  have key : (if s = true then (-1 : Int) else 1) * (X * P) - (if t = true then (-1 : Int) else 1) * (Y * P)
+      = ((if s = true then (-1 : Int) else 1) * X + (if (!t) = true then (-1 : Int) else 1) * Y) * P := by
+    cases s <;> cases t <;> simp [Int.add_mul, Int.neg_mul] <;> omega
+  have := mul_pos_le_zero_iff ((if s = true then (-1 : Int) else 1) * X + (if (!t) = true then (-1 : Int) else 1) * Y) P hP
+  rw [← key] at this
+  constructor
+  · intro h; have := this.mpr h; omega
+  · intro h; exact this.mp (by omega)
+
+/-- the value of `to_fN(raw)`: a finite float with exponent `≥ -k` whose value times `2^k` is `raw`. -/
+theorem toFloat_value (t : FxTy) (ok : t.Ok) (raw : Int) (h : t.lo ≤ raw ∧ raw ≤ t.hi) :
+    ∃ s m e, toFloat t raw = .fin s m e ∧ m < 2 ^ t.fmt.p ∧ t.fmt.emin ≤ e ∧ -(t.k : Int) ≤ e ∧
+      (if s then -1 else 1) * ((m : Int) * 2 ^ (e + t.k).toNat) = raw := by
+  rw [toFloat_form t ok raw h]
+  have hrawN := bound_natAbs t ok raw h
+  have hKi : (0 : Int) < (2 : Int) ^ t.k := int_pow_pos t.k
+  have h1 := Int.mul_ediv_add_emod raw (2 ^ t.k)
+  have hk := ok.hk
+  by_cases hr : raw % 2 ^ t.k = 0
+  · simp only [hr, if_true]
+    rw [hr] at h1
+    generalize hq : raw / 2 ^ t.k = q at *
+    have hqa : q.natAbs ≤ raw.natAbs := by
+      generalize (2 : Int) ^ t.k = K at *
+      have e1 : K * q = q + (K - 1) * q := by rw [Int.sub_mul]; omega
+      by_cases hq0 : 0 ≤ q
+      · have := Int.mul_nonneg (by omega : (0 : Int) ≤ K - 1) hq0
+        omega
+      · have : (K - 1) * q ≤ 0 := Int.mul_nonpos_of_nonneg_of_nonpos (by omega) (by omega)
+        omega
+    refine ⟨_, _, _, rfl, by omega, ok.hemin, by omega, ?_⟩
+    simp only [Int.zero_add, Int.toNat_natCast, decide_eq_true_eq]
+    rw [← Int.mul_assoc, sgn_natAbs, Int.mul_comm]; omega
+  · simp only [hr, if_false]
+    refine ⟨_, _, _, rfl, hrawN, ok.hk, by omega, ?_⟩
+    have hk1 : (-(t.k : Int) + (t.k : Int)).toNat = 0 := by omega
+    simp only [hk1, Int.pow_zero, Int.mul_one, decide_eq_true_eq]
+    exact sgn_natAbs raw
+
 end FontVerif.FixedConv
